@@ -151,7 +151,7 @@ def odx_encode(msg: Any, values: Dict[str, Any], request: Optional[bytes] = None
                 pdu = msg.encode(**values)
             exc = None
         except BaseException as e:  # noqa
-            if isinstance(e, (KeyboardInterrupt, SystemExit, MemoryError)):
+            if isinstance(e, (KeyboardInterrupt, SystemExit)):
                 raise
             pdu, exc = None, e
     ov = [str(x.message) for x in w if issubclass(x.category, OdxWarning) and "verlap" in str(x.message)]
@@ -164,6 +164,6 @@ def odx_decode(msg: Any, pdu: bytes) -> Tuple[Any, Optional[BaseException]]:
         try:
             return msg.decode(bytes(pdu)), None
         except BaseException as e:  # noqa
-            if isinstance(e, (KeyboardInterrupt, SystemExit, MemoryError)):
+            if isinstance(e, (KeyboardInterrupt, SystemExit)):
                 raise
             return None, e
